@@ -80,6 +80,10 @@ pub fn run_items(prop: &str, items: Vec<BItem>, rep: &Report, opts: BOpts) -> Re
         }
     }
     rep.count("prescreen_passed", cases.len() as u64);
+    eprintln!("  {}: {} distinct test modules ({} after the in-process pre-screen)", prop, items.len(), cases.len());
+    if std::env::var("VERIF_COUNT_ONLY").is_ok() {
+        return Err("VERIF_COUNT_ONLY set: modules counted, nothing built".into());
+    }
     let st = run_batch(&cases, &opts)?;
     let mut passed_checks = 0usize;
     for (ci, c) in cases.iter().enumerate() {
